@@ -4,3 +4,20 @@ Print Assumptions anf_keeps_every_operation_once_in_order.
 Check (anf_in_context_keeps_order : forall fuel e, (depth e <= fuel)%nat -> forall n k tail,
   (forall c m, ord_a (fst (k c m)) = ord_c c ++ tail) -> ord_a (fst (anf fuel e n k)) = ord_src e ++ tail).
 Print Assumptions anf_in_context_keeps_order.
+From Goml Require Import C09.Flat C09.FlatEq C09.Sem.
+Check (anf_preserves_meaning :
+  forall (val world : Type) (prim_val : str -> val) (tag_val : N -> val) (unit_val : val) (glob : str -> option val)
+         (oper : desc -> list val -> world -> option val * world) (truth : val -> option bool) (pat_match : imm -> val -> bool)
+         fs fa body n r w o,
+  eval_l val world prim_val tag_val unit_val glob oper truth pat_match fs body r w = Some o ->
+  (depth body <= fa)%nat -> wfb body = true ->
+  match o with
+  | OVal _ _ v r2 w2 =>
+      exists ra2, eva val world prim_val tag_val unit_val glob oper truth pat_match (fst (anf_fn fa body n)) r w (OVal _ _ v ra2 w2)
+                  /\ ext val r2 ra2
+  | OFail _ _ wf => eva val world prim_val tag_val unit_val glob oper truth pat_match (fst (anf_fn fa body n)) r w (OFail _ _ wf)
+  end).
+Print Assumptions anf_preserves_meaning.
+Check (anf_is_wrap_of_flat : forall fuel e n k,
+  anf fuel e n k = let '(bs, c, n1) := flat fuel e n in let (a, n2) := k c n1 in (wrap bs a, n2)).
+Print Assumptions anf_is_wrap_of_flat.
